@@ -298,6 +298,10 @@ class Interp:
                 if matches(case.pattern) and (case.guard is None or self.ev(case.guard)):
                     self.run_block(case.body)
                     break
+        elif isinstance(st, (ast.Import, ast.ImportFrom)):
+            # a local import only binds names; what is done with them is decided by the hooks (nothing is imported)
+            for al in st.names:
+                self.env[(al.asname or al.name).split('.')[0]] = ('<module>', al.name)
         elif isinstance(st, ast.Break):
             raise _Break()
         elif isinstance(st, ast.Continue):
